@@ -364,7 +364,7 @@ pub fn exec(prop: &str, case: &Case) -> Outcome {
                 steps: mc.fam.n,
                 detail: serde_json::json!({
                     "keys": mc.fam.n, "map": mc.map, "cache_geometry": mc.registry.map(|r| vec![r.0, r.1]),
-                    "fanout": mc.fam.fanout, "key_length": mc.fam.keylen,
+                    "fanout": mc.fam.fanout, "key_length": mc.fam.keylen, "prefix_pairs": mc.fam.pairs,
                     "bound_bytes": run.bound, "live_after_new": run.after_new,
                     "max_live_at_checkpoints": run.max_live,
                     "live_at_first_tenth": run.live_at_tenth, "live_at_end": run.live_at_end,
